@@ -116,6 +116,12 @@ func c09SpecialSeq(g *gen.G, which int) *c09Seq {
 			c1 = mk("expr", "c09-generates-nested", x, nil, "oldJoin(«x»)", "join(a, b, join(«x», join(c, d)))")
 		}
 		return &c09Seq{changes: []*gen.Change{c1, c2}, roles: []string{"generates-nested", "rewrites-both-levels"}, base: c1}
+	case 5:
+		// a stepwise migration: the '-' side of each change is, byte for byte, the '+' side of the one before it
+		c1 := &gen.Change{Kind: "expr", Schema: "c09-step-1", Meta: x, Lines: []gen.Line{gen.L('-', "stepA(‹1:args›, «x», ‹2:args›)"), gen.L('+', "stepB(‹1:args›, «x», ‹2:args›)")}}
+		c2 := &gen.Change{Kind: "expr", Schema: "c09-step-2", Meta: x, Lines: []gen.Line{gen.L('-', "stepB(‹1:args›, «x», ‹2:args›)"), gen.L('+', "stepC(‹1:args›, wrap(«x»), ‹2:args›)")}}
+		c3 := &gen.Change{Kind: "expr", Schema: "c09-step-3", Meta: x, Lines: []gen.Line{gen.L('-', "stepC(‹1:args›, wrap(«x»), ‹2:args›)"), gen.L('+', "stepD(«x», ‹2:args›, ‹1:args›)")}}
+		return &c09Seq{changes: []*gen.Change{c1, c2, c3}, roles: []string{"step", "step-same-text", "step-same-text"}, base: c1}
 	default:
 		// a later change is guarded by an import that only an earlier change adds (and by a package clause that only
 		// an earlier change makes true)
@@ -331,6 +337,8 @@ func runC09(ctx *core.Ctx, idx int) *core.Result {
 		seq = c09SpecialSeq(g, 3)
 	case 14:
 		seq = c09SpecialSeq(g, 4)
+	case 20:
+		seq = c09SpecialSeq(g, 5)
 	}
 	// files
 	nf := 3
